@@ -43,6 +43,8 @@ class Explorer:
             s.add(*cs)
             r = str(s.check())
         smt.STATS.record(r, time.time() - t, "feasibility", s, self.kind)
+        if smt.DEBUG:
+            print("  feas %-8s %6.2fs depth=%d %s" % (r, time.time() - t, len(self.pc), e.sexpr().replace("\n", " ")[:100]), flush=True)
         self.queries += 1
         return r
 
